@@ -33,11 +33,38 @@ def configs(tier):
     return out
 
 
+def with_programs():
+    """`with` and direct eval are outside MiniJS: every binding they can reach by name must stay in its environment, also
+    after a nested `with` / eval has ended and for bindings first mentioned late."""
+    T = {
+        "read": "function f(o){ let x = 'local'; with (o) { %s return x } } print(f({x: 'obj'}), f({}));",
+        "write": "function f(o){ let y = 'local'; with (o) { %s y = 'written' } return y + '/' + o.y } print(f({y: 'obj'}), f({}));",
+        "compound": "function f(o){ let n = 0, i = 0; with (o) { %s n += 10; n += 10 } return n + '/' + o.n + '/' + i } print(f({n: 100}), f({}));",
+        "update": "function f(o){ let n = 1; with (o) { %s n++; ++n } return n + '/' + o.n } print(f({n: 5}), f({}));",
+        "typeof": "function f(o){ let z = 1; with (o) { %s return typeof z + z } } print(f({z: 's'}), f({}));",
+        "call": "function f(o){ function g(){ return 'local' } with (o) { %s return g() } } print(f({g: function(){ return 'obj' }}), f({}));",
+        "const": "function f(o){ const c = 1; with (o) { %s return c + 1 } } print(f({c: 10}), f({}));",
+        "param": "function f(o, p){ with (o) { %s p = p + 1 } return p + '/' + o.p } print(f({p: 10}, 1), f({}, 1));",
+        "loop": "function f(o){ let s = 0; for (let i = 0; i < 3; i++) { with (o) { %s s += i } } return s + '/' + o.s } print(f({s: 100}), f({}));",
+        "closure-late": "function f(o){ let v = 'local'; with (o) { %s v = 'w' } return (function(){ return v })() + '/' + o.v } print(f({v: 'obj'}), f({}));",
+        "delete": "function f(o){ var d = 'local'; with (o) { %s delete o.d; return d } } print(f({d: 'obj'}), f({}));",
+    }
+    INNER = {"none": "", "with-empty": "with ({}) { }", "with-use": "with ({u: 1}) { u; }", "with-math": "with (Math) { max(1, 2); }",
+             "eval-noop": "eval('1');", "eval-var": "eval('var q = 1');", "block-let": "{ let b = 1; b; }", "try": "try { null.x } catch (e) { }",
+             "nested2": "with ({}) { with ({}) { } }", "arrow": "(() => 1)();", "label": "l: { break l; }", "switch": "switch (1) { case 1: break; }"}
+    out = []
+    for tn, t in T.items():
+        for inn, code in INNER.items():
+            out.append(("with/%s/%s" % (tn, inn), t % code))
+    return out
+
+
 def spec(tier):
     s = cfgdiff.Spec("C04", configs(tier), "conservative", "c04",
                      "all bindings in environments, no constant caching, no hoisting, no compare-and-branch fusion",
                      {"quick": 500, "thorough": 1500})
     s.sig_names = {n for n, _ in configs("quick")}
+    s.raw_items = with_programs()
     return s
 
 
